@@ -58,11 +58,16 @@ def main_c12(tier, seed):
         rk = Ranker([0.0, FLOAT_MAX, 0.00001, 1.0] + [v for r in it.D for v in r])
         sg = new_subgraph(it, labels=False)
         args = arcs_args(it)
-        twice = (idx % 7 == 3) and k <= n - 1
+        twice = (idx % 5 == 3)
+        destroy = 0
         try:
             if twice:
-                k1 = rng.randint(1, k)
+                # an earlier arc creation on the same subgraph, with or without destroy_arcs in between, any k1
+                k1 = rng.randint(1, max(1, n + 1))
+                destroy = rng.randint(0, 1)
                 sg.create_arcs(k1, *args)
+                if destroy:
+                    sg.destroy_arcs()
             maxd = [float(v) for v in sg.create_arcs(k, *args)]
             adj = adj_of(sg)
             radius = [float(x.radius) for x in sg.nodes]
@@ -73,18 +78,20 @@ def main_c12(tier, seed):
             exp, err = ["error", repr(ex)], repr(ex)
         wfl = [rk.r(it.D[a][b]) for a in range(n) for b in range(n)]
         if twice:
-            terms.append("run_create_arcs_twice %d %d %d %d %d %d %d %s" % (rk.r(0.0), rk.r(FLOAT_MAX), rk.r(0.00001), rk.r(1.0), n, k1, k, zlist(wfl)))
+            terms.append("run_create_arcs_twice %d %d %d %d %d %d %d %d %s" % (rk.r(0.0), rk.r(FLOAT_MAX), rk.r(0.00001), rk.r(1.0), destroy, n, k1, k, zlist(wfl)))
         else:
             terms.append("run_create_arcs %d %d %d %d %d %d %s" % (rk.r(0.0), rk.r(FLOAT_MAX), rk.r(0.00001), rk.r(1.0), n, k, zlist(wfl)))
-        expect.append(exp); d = it.desc(); d["k"] = k; d["twice"] = twice; descs.append(d)
+        expect.append(exp); d = it.desc(); d["k"] = k; d["twice"] = twice; d["destroy_between"] = destroy; descs.append(d)
         rep.count_case((it.key(), k, twice), n >= 3)
         if err:
             nviol += 1
             if nviol <= 3:
                 rep.violation("create_arcs raised " + err, d, key="create_arcs")
             continue
-        if not twice:
-            msg = oracle_arcs(it.D, n, k, adj, radius, gd, maxd)
+        if not twice or destroy:
+            # after destroy_arcs the second creation must look like one on a fresh subgraph, except that the density
+            # bound can only grow (it survives destroy_arcs)
+            msg = oracle_arcs(it.D, n, k, adj, radius, None if twice else gd, maxd)
             if msg:
                 nviol += 1
                 if nviol <= 3:
@@ -323,7 +330,7 @@ def main_c13(tier, seed):
         E = [float(np.exp(-np.float64(Dt[a][b]) / const)) for a in range(nt) for b in range(nt)]
         fterms.append("run_knn_fit_final %d %d %d %s %s %s %s" % (0 if which == "unsup" else 1, nt, k, flit(calls[-1][1]), zlist(labels_t),
                                                                 flist([v for r in Dt for v in r]), flist(E)))
-        fexpect.append([const, float(sg.min_density), float(sg.max_density), float(st["nclusters"])] + st["dens"] + st["cost"]
+        fexpect.append([const, float(sg.min_density), float(sg.max_density), float(st["nclusters"])] + st["radius"] + st["dens"] + st["cost"]
                        + [float(v) for v in st["pred"]] + [float(v) for v in st["root"]] + [float(v) for v in st["plabel"]] + [float(v) for v in st["clabel"]])
         fdescs.append(d)
     badf, _ = corr_generic(rep, "correspondence: model of the final training stage (create_arcs(best_k) -> calculate_pdf -> _clustering, PrimFloat end to end) vs the fitted KNNSupervisedOPF / UnsupervisedOPF objects",
@@ -495,7 +502,7 @@ def main_c16(tier, seed):
                 if len(set(it.labels[:it.ntr])) == 2 and len(set(it.labels[it.ntr:])) == 2:
                     pass
             max_k = rng.randint(1, min(5, len(tr) - 1))
-            opf, X, I = make_knn_model(it, KNNSupervisedOPF, max_k=max_k)
+            opf, X, I = make_knn_model(it, KNNSupervisedOPF, reuse=(idx % 4 == 2), max_k=max_k)
             accs = []
             def wrapped(labels, preds, _o=orig_acc):
                 v = _o(labels, preds); accs.append(float(v)); return v
@@ -539,7 +546,7 @@ def main_c16(tier, seed):
         else:
             min_k = rng.randint(1, 2)
             max_k = rng.randint(min_k, min(5, n - 1))
-            opf, X, I = make_knn_model(it, UnsupervisedOPF, min_k=min_k, max_k=max_k)
+            opf, X, I = make_knn_model(it, UnsupervisedOPF, reuse=(idx % 4 == 3), min_k=min_k, max_k=max_k)
             cuts = []
             orig_cut = opf._normalized_cut
             def wcut(k, _o=orig_cut):
@@ -555,6 +562,7 @@ def main_c16(tier, seed):
                 err = None
             except Exception as ex:
                 err = repr(ex)
+            opf.__dict__.pop("_normalized_cut", None); opf.__dict__.pop("_clustering", None)
             d["min_k"], d["max_k"], d["cuts"] = min_k, max_k, cuts
             if any(c != c for c in cuts):
                 continue
